@@ -257,7 +257,8 @@ fn spawn(daemon: &str, dir: &Path, port: u16) -> Daemon {
     let mut child = Command::new(daemon)
         .args(["run", "--config", "config.toml"])
         .current_dir(dir)
-        .env("RUST_LOG", "error")
+        // the signal loop's own "Received SIGHUP" lines are needed by the barrier of the R steps; every other module stays at `error`
+        .env("RUST_LOG", "error,quandaryd::run=info")
         .stdin(Stdio::null())
         .stdout(Stdio::null())
         .stderr(Stdio::piped())
@@ -288,6 +289,48 @@ fn wait_sentinel(sock: &UdpSocket, d: &mut Daemon, z: &ZoneSpec, id: &mut u16) -
             return false;
         }
         std::thread::sleep(Duration::from_millis(1));
+    }
+    false
+}
+
+/// Reads the daemon's log until a line containing one of the two markers arrives: Some(true) for "Received SIGHUP",
+/// Some(false) for "Failed to reload zones and keys", None after 20 s.
+fn next_marker(d: &mut Daemon) -> Option<bool> {
+    let deadline = Instant::now() + Duration::from_secs(20);
+    while Instant::now() < deadline {
+        match d.stderr.recv_timeout(Duration::from_millis(50)) {
+            Ok(l) if l.contains("Received SIGHUP") => return Some(true),
+            Ok(l) if l.contains("Failed to reload zones and keys") => return Some(false),
+            _ => {}
+        }
+    }
+    None
+}
+
+/// A reload that changes NO sentinel (step kind R): the end of the reload is recognised by a barrier - a second SIGHUP with
+/// a configuration the daemon rejects. The signal loop is one thread, so the log order decides what happened:
+///   Received, Received, Failed         : the first reload ran with the step's configuration and has returned -> true
+///   Received, Failed, Received, Failed : the first reload was slow to open the configuration and saw the broken one;
+///                                        nothing has changed in the daemon, the step is tried again.
+fn reload_with_barrier(d: &mut Daemon, dir: &Path, zones: &[ZoneSpec]) -> bool {
+    for _ in 0..6 {
+        write_step(dir, zones, false, d.port, "");
+        hup(d);
+        if next_marker(d) != Some(true) {
+            return false;
+        }
+        write_step(dir, zones, true, d.port, "");
+        let st = Command::new("kill").args(["-HUP", &d.child.id().to_string()]).status();
+        assert!(st.map(|s| s.success()).unwrap_or(false), "kill failed");
+        match next_marker(d) {
+            Some(true) => return next_marker(d) == Some(false),
+            Some(false) => {
+                if next_marker(d) != Some(true) || next_marker(d) != Some(false) {
+                    return false;
+                }
+            }
+            None => return false,
+        }
     }
     false
 }
@@ -552,7 +595,10 @@ fn run_case(f: &[&str], daemon: &str, scratch: &Path, serial: usize) -> String {
         // The sentinel gets a name unique to this runner process, case and step, so that no other
         // daemon (another shard that raced for the same port) can ever answer for it. It is not
         // among the probes, so the output does not depend on the renaming.
-        step_no += 1;
+        // In a step of kind R the sentinel is the previous step's, untouched: nothing but removals happens in it.
+        if kind != "R" {
+            step_no += 1;
+        }
         zones[0].name = format!("zz{}p{}n{}.", step_no, std::process::id(), serial);
         match d.as_mut() {
             None => {
@@ -572,11 +618,19 @@ fn run_case(f: &[&str], daemon: &str, scratch: &Path, serial: usize) -> String {
                     return "err daemon-did-not-start".to_string();
                 }
             }
+            Some(dm) if kind == "R" => {
+                if !reload_with_barrier(dm, &dir, &zones) {
+                    return format!("{out} timeout-waiting-for-barrier");
+                }
+            }
             Some(dm) => {
                 write_step(&dir, &zones, kind == "X", dm.port, "");
-                while dm.stderr.try_recv().is_ok() {}
-                let st = Command::new("kill").args(["-HUP", &dm.child.id().to_string()]).status();
-                assert!(st.map(|s| s.success()).unwrap_or(false), "kill failed");
+                hup(dm);
+                // every SIGHUP's own "Received SIGHUP" line is consumed here, so that the log reader can never hand a
+                // stale one to the barrier of a later R step
+                if next_marker(dm) != Some(true) {
+                    return format!("{out} timeout-waiting-for-sighup-log");
+                }
                 let done = if kind == "S" { wait_sentinel(&sock, dm, &zones[0], &mut id) } else { wait_rejected(dm) };
                 if !done {
                     return format!("{out} timeout-waiting-for-reload");
